@@ -553,6 +553,48 @@ func (a *Analysis) ruleW2(upd *ssa.Function) {
 		if !returned {
 			r.Bad("W2", fk+"/errors", a.P.InstrPos(call), "", "the error of %s is never returned", calleeName(call))
 			okErr = false
+			continue
+		}
+		if call == exec {
+			continue // the last step: its error is the function's result
+		}
+		// an intermediate step: the run stops exactly when the error is non-nil
+		var test *ssa.If
+		var errSucc, okSucc *ssa.BasicBlock
+		for _, ref := range *ev.Referrers() {
+			bo, ok := ref.(*ssa.BinOp)
+			if !ok || (bo.Op != token.NEQ && bo.Op != token.EQL) {
+				continue
+			}
+			if !(bo.X == ev && isNilConst(bo.Y)) && !(bo.Y == ev && isNilConst(bo.X)) {
+				continue
+			}
+			for _, br := range *bo.Referrers() {
+				if ifi, ok := br.(*ssa.If); ok {
+					test = ifi
+					if bo.Op == token.NEQ {
+						errSucc, okSucc = ifi.Block().Succs[0], ifi.Block().Succs[1]
+					} else {
+						okSucc, errSucc = ifi.Block().Succs[0], ifi.Block().Succs[1]
+					}
+				}
+			}
+		}
+		if test == nil {
+			r.Bad("W2", fk+"/errors", a.P.InstrPos(call), "", "the error of %s is not tested before the next step", calleeName(call))
+			okErr = false
+			continue
+		}
+		stops := false
+		for _, ret := range returnsOf(upd) {
+			if len(ret.Results) == 1 && returnedValue(ret, 0) == ev && len(errSucc.Preds) == 1 && errSucc.Dominates(ret.Block()) {
+				stops = true
+			}
+		}
+		goesOn := len(okSucc.Preds) == 1 && okSucc.Dominates(exec.Block())
+		if !stops || !goesOn {
+			r.Bad("W2", fk+"/errors", a.P.InstrPos(test), "", "the error test after %s is inverted or incomplete: the run must stop (returning the error) exactly when the error is non-nil and go on to render the file otherwise", calleeName(call))
+			okErr = false
 		}
 	}
 	if okErr {
